@@ -81,6 +81,19 @@ def mark_font(draw):
     if draw(st.booleans()):
         tags = draw(st.lists(st.sampled_from(["latn", "arab", "dev2", "deva", "cyrl", "bng2", "khmr"]), unique=True, max_size=3))
         fea = "languagesystem DFLT dflt;\n" + "".join("languagesystem %s dflt;\n" % t for t in tags)
+    # leftover markClass definitions in the user's feature text that clash with (or equal) the generated ones
+    if draw(st.sampled_from([True, False, False])):
+        # only for mark anchors that do attach to something (a markClass statement makes its glyph a GDEF mark for feaLib's inference:
+        # declaring a glyph that the anchors treat as a base would be contradictory user input)
+        base_keys = {re.sub(r"_\d+$", "", a["name"]) for g in spec["glyphs"] for a in g["anchors"] if not a["name"].startswith("_")}
+        for g in spec["glyphs"]:
+            for a in g["anchors"]:
+                if a["name"].startswith("_") and a["name"][1:] in base_keys and roles[g["name"]] == "mark" and draw(st.booleans()):
+                    kind = draw(st.sampled_from(["same", "other-y", "other-x"]))
+                    x = R.ot_round(a["x"]) + (7 if kind == "other-x" else 0)
+                    y = R.ot_round(a["y"]) + (50 if kind == "other-y" else 0)
+                    fea += "markClass %s <anchor %d %d> @MC_%s;\n" % (g["name"], x, y, a["name"][1:].replace(".", "_"))
+        spec["leftover_markclass"] = True
     spec["features"] = fea
     return spec
 
@@ -178,9 +191,17 @@ def run_case(case, ctx):
             return False
         return any(k.startswith("_") and k[1:] in base_keys_plain for k in A[n])
 
+    # known finding KF-C06-2: a leftover markClass in the user's feature text whose anchor differs from the UFO's makes the writer define a
+    # second class (MC_k_1) and reference only that one from the base anchors: the other marks of key k lose their attachment
+    split_keys = set()
+    for m in re.finditer(r"markClass (\S+) <anchor (-?\d+) (-?\d+)> @MC_(\S+);", spec["features"]):
+        gname, x, y, cls = m.group(1), int(m.group(2)), int(m.group(3)), m.group(4)
+        for k, v in A.get(gname, {}).items():
+            if k.startswith("_") and k[1:].replace(".", "_") == cls and v != (x, y):
+                split_keys.add(k[1:])
     abvm, notabvm = abvm_sets(spec)
     tags = set(otl.script_tags(t)) | {"DFLT"}
-    npairs = natt = nweak = nkf = 0
+    npairs = natt = nweak = nkf = nkf2 = 0
     two_class = any(sum(1 for k in A[n] if k.startswith("_") and k[1:] in base_keys_plain) >= 2 for n in names if is_mark(n))
     mkmk_cand = False
     for tag in sorted(tags):
@@ -217,6 +238,9 @@ def run_case(case, ctx):
                     if not (both_not or both_abvm) and not case.get("no_exclusions"):
                         nkf += 1
                         weak = True  # known finding KF-C06-1
+                if not case.get("no_exclusions") and any(k.startswith("_") and k[1:] in split_keys for k in A[g2]):
+                    nkf2 += 1
+                    weak = True  # known finding KF-C06-2
                 if weak:
                     nweak += 1
                     if got is not None and got[1] not in cands:
@@ -238,6 +262,7 @@ def run_case(case, ctx):
     ctx.count("attachments-checked", natt)
     ctx.count("weak-pairs", nweak)
     ctx.count("pairs-in-known-finding-class(KF-C06-1)", nkf)
+    ctx.count("pairs-in-known-finding-class(KF-C06-2)", nkf2)
     has_lig = any(r == "ligature" for r in roles.values())
     if has_lig:
         ctx.label("ligature")
@@ -252,8 +277,10 @@ def run_case(case, ctx):
         ctx.label("categories")
     if mkmk_cand:
         ctx.label("mkmk-candidate")
-    if spec["features"]:
+    if spec["features"] and "languagesystem" in spec["features"]:
         ctx.label("languagesystems")
+    if "markClass" in spec["features"]:
+        ctx.label("leftover-markClass-in-user-features")
     ctx.label("quant=%s" % quant)
     ctx.nontrivial(two_class or has_lig or abvm_base)
 
